@@ -74,7 +74,11 @@ def gen(seed, tier):
             ops.append(["incr", rng.randint(1, 12), 1 if huge else rng.choice([1, 1, 1.0])])
         else:
             ops.append(["props", rng.choice([0.0, 0.25, 0.5, 1.0]), rng.choice([0.0, 0.25, 0.5, 1.0])])
-    return {"prop": "C06", "seed": seed, "params": params, "mode": mode, "pool": {"supply": rng.choice([INF] if inf_supply else SUPPLIES), "demand": rng.choice(pool), "utilisation": 0.5, "allocation": 0.5}, "ops": ops}
+    other = None
+    if rng.random() < 0.3:
+        omn = rng.choice(MINS)
+        other = {"minimum": omn, "maximum": rng.choice([m for m in MAXS if m >= omn] or [INF]), "granularity": rng.choice(GRANS), "backlog": rng.choice(LIMS), "surplus": rng.choice(LIMS)}
+    return {"prop": "C06", "seed": seed, "other": other, "params": params, "mode": mode, "pool": {"supply": rng.choice([INF] if inf_supply else SUPPLIES), "demand": rng.choice(pool), "utilisation": 0.5, "allocation": 0.5}, "ops": ops}
 
 
 def F(x):
@@ -162,6 +166,13 @@ def run(scenario, tape_values):
             std = Standardiser(pool, **p)
         except ValueError as err:
             raise ScenarioInvalid(str(err))
+        if sc.get("other"):
+            # another Standardiser somewhere else in the process, with limits of its own, constructed
+            # later: every instance keeps to its own settings
+            try:
+                ctx["other"] = Standardiser(RecPool(world, "otherpool", supply=3.0, demand=1.0), **sc["other"])
+            except ValueError:
+                pass
         for op in ops:
             k = op[0]
             world.op = k
